@@ -105,6 +105,24 @@ IsCont(b) == b >= 128 /\ b <= 191
 (* number of characters of a valid string = number of non-continuation bytes *)
 Utf8CharCount(s) == Cardinality({i \in 1..Len(s) : ~IsCont(s[i])})
 
+(* decoding a VALID string: the sequence of its code points, and their UTF-16 code units *)
+SeqLenOf(b) == IF b <= 127 THEN 1 ELSE IF b <= 223 THEN 2 ELSE IF b <= 239 THEN 3 ELSE 4
+Utf8CpAt(s, i) ==       \* code point of the sequence starting at 1-based index i
+    LET k == SeqLenOf(s[i])
+    IN  CASE k = 1 -> s[i]
+          [] k = 2 -> (s[i] - 192) * 64 + (s[i + 1] - 128)
+          [] k = 3 -> (s[i] - 224) * 4096 + (s[i + 1] - 128) * 64 + (s[i + 2] - 128)
+          [] k = 4 -> (s[i] - 240) * 262144 + (s[i + 1] - 128) * 4096 + (s[i + 2] - 128) * 64 + (s[i + 3] - 128)
+RECURSIVE Utf8DecodeFrom(_, _)
+Utf8DecodeFrom(s, i) ==
+    IF i > Len(s) THEN <<>> ELSE <<Utf8CpAt(s, i)>> \o Utf8DecodeFrom(s, i + SeqLenOf(s[i]))
+Utf8Decode(s) == Utf8DecodeFrom(s, 1)
+Utf16Units(cp) == IF cp <= 65535 THEN <<cp>>
+                  ELSE <<55296 + ((cp - 65536) \div 1024), 56320 + ((cp - 65536) % 1024)>>
+RECURSIVE Utf16EncFrom(_, _)
+Utf16EncFrom(cps, i) == IF i > Len(cps) THEN <<>> ELSE Utf16Units(cps[i]) \o Utf16EncFrom(cps, i + 1)
+Utf16Enc(cps) == Utf16EncFrom(cps, 1)
+
 (* The same language defined through CODE POINTS (RFC 3629 section 3): a string is valid *)
 (* iff it splits into sequences of 1..4 bytes each of which is the SHORTEST encoding of   *)
 (* a scalar value (not a surrogate, <= U+10FFFF).  MC_Kernels checks Utf8Valid against    *)
@@ -262,6 +280,14 @@ ZeroHighBits(x, w, n) == LET b == ToBits(x, w) IN FromBits([i \in 1..w |-> IF i 
 (* histogram: 256 counts, hist[v + 1] = number of bytes equal to v            *)
 Histogram(s) == [v \in 1..256 |-> Cardinality({i \in 1..Len(s) : s[i] = v - 1})]
 CountByte(s, c) == Cardinality({i \in 1..Len(s) : s[i] = c})
+(* all positions holding byte c, ascending; the last one; total number of one bits *)
+PositionsOf(h, c) == SelectSeq([i \in 1..Len(h) |-> i - 1], LAMBDA p : h[p + 1] = c)
+FindLastByte(h, c) == LET ps == PositionsOf(h, c) IN IF Len(ps) = 0 THEN NotFound ELSE ps[Len(ps)]
+BitsOfByte(x) == (x % 2) + ((x \div 2) % 2) + ((x \div 4) % 2) + ((x \div 8) % 2)
+                 + ((x \div 16) % 2) + ((x \div 32) % 2) + ((x \div 64) % 2) + (x \div 128)
+RECURSIVE PopCountBytesFrom(_, _)
+PopCountBytesFrom(s, i) == IF i > Len(s) THEN 0 ELSE BitsOfByte(s[i]) + PopCountBytesFrom(s, i + 1)
+PopCountBytes(s) == PopCountBytesFrom(s, 1)
 
 (* ------------------------------------------------------------------------- *)
 (* 64-bit modular arithmetic on limbs, for the portable string hash            *)
@@ -349,7 +375,8 @@ FindAllOK(e) ==
     IN  e.pos = pos /\ e.chars = [j \in 1..Len(pos) |-> e.h[pos[j] + 1]]
 
 (* the idx-th (0-based) string of length k over the alphabet, most significant digit first *)
-Pow(b, k) == IF k = 0 THEN 1 ELSE IF k = 1 THEN b ELSE IF k = 2 THEN b * b ELSE b * b * b
+RECURSIVE Pow(_, _)
+Pow(b, k) == IF k = 0 THEN 1 ELSE b * Pow(b, k - 1)
 NthString(alpha, k, idx) ==
     [j \in 1..k |-> alpha[((idx \div Pow(Len(alpha), k - j)) % Len(alpha)) + 1]]
 (* the frame with the bytes off+1..off+k overwritten *)
@@ -358,7 +385,7 @@ Embed(frame, off, q) ==
 Utf8OK(e) == e.r = Utf8Valid(e.s)
 Utf8BatchOK(e) ==
     LET cnt == Pow(Len(e.alpha), e.k)
-    IN  /\ e.k \in 0..3 /\ e.off + e.k <= Len(e.frame) /\ Len(e.r) = cnt
+    IN  /\ e.k \in 0..4 /\ e.off + e.k <= Len(e.frame) /\ Len(e.r) = cnt
         /\ \A idx \in 0..(cnt - 1) :
               e.r[idx + 1] = Utf8Valid(Embed(e.frame, e.off, NthString(e.alpha, e.k, idx)))
 (* count: Err (-1) exactly on invalid input, else the number of characters *)
@@ -366,9 +393,13 @@ Utf8CountOf(s) == IF Utf8Valid(s) THEN Utf8CharCount(s) ELSE -1
 Utf8CountOK(e) == e.r = Utf8CountOf(e.s)
 Utf8CountBatchOK(e) ==
     LET cnt == Pow(Len(e.alpha), e.k)
-    IN  /\ e.k \in 0..3 /\ e.off + e.k <= Len(e.frame) /\ Len(e.r) = cnt
+    IN  /\ e.k \in 0..4 /\ e.off + e.k <= Len(e.frame) /\ Len(e.r) = cnt
         /\ \A idx \in 0..(cnt - 1) :
               e.r[idx + 1] = Utf8CountOf(Embed(e.frame, e.off, NthString(e.alpha, e.k, idx)))
+
+(* a decoder succeeds exactly on the valid strings (its Ok / Err is a validity verdict) *)
+Utf8DecodeOK(e) == IF e.ok THEN Utf8Valid(e.s) /\ e.r = Utf8Decode(e.s) ELSE ~Utf8Valid(e.s)
+Utf16OK(e)      == IF e.ok THEN Utf8Valid(e.s) /\ e.r = Utf16Enc(Utf8Decode(e.s)) ELSE ~Utf8Valid(e.s)
 
 CrcOK(e)     == e.r = CrcUpdate(e.init, e.data)
 CrcHashOK(e) == e.r = Crc32c(e.data)
@@ -383,7 +414,7 @@ B64DecOK(e) ==
     ELSE ~Base64Valid(e.s, e.url, e.pad)
 (* encoded length of n bytes (padded); upper bound of the decoded length of m characters *)
 B64LenOK(e) == /\ e.enc = Len(Base64Enc(Fill(e.n, 0), FALSE, TRUE))
-               /\ e.dec >= (e.n * 6) \div 8
+               /\ e.dec >= e.n
 HexEncOK(e) == e.r = HexEnc(e.data, e.upper)
 HexDecOK(e) == IF e.ok THEN HexValid(e.s) /\ e.r = HexDec(e.s) ELSE ~HexValid(e.s)
 HexValidOK(e) == e.r = HexValid(e.s)
@@ -406,6 +437,9 @@ StrHashOK(e) == e.r = StrHash(e.s, e.base)
 Prefix8OK(e) == e.r = Prefix8(e.s)
 CountByteOK(e) == e.r = CountByte(e.h, e.c)
 HistogramOK(e) == e.r = Histogram(e.h)
+PositionsOK(e) == e.r = PositionsOf(e.h, e.c)
+FindLastOK(e) == e.r = OptOf(FindLastByte(e.h, e.c))
+PopCountBytesOK(e) == e.r = PopCountBytes(e.h)
 
 (* dispatch; an op without a predicate (signal, panic) is never accepted *)
 EventOK(e) ==
@@ -426,6 +460,8 @@ EventOK(e) ==
       [] e.op = "utf8_batch"    -> Utf8BatchOK(e)
       [] e.op = "utf8_count"    -> Utf8CountOK(e)
       [] e.op = "utf8count_batch" -> Utf8CountBatchOK(e)
+      [] e.op = "utf8_decode"   -> Utf8DecodeOK(e)
+      [] e.op = "utf16"         -> Utf16OK(e)
       [] e.op = "crc"           -> CrcOK(e)
       [] e.op = "crc_hash"      -> CrcHashOK(e)
       [] e.op = "crc_inc"       -> CrcIncOK(e)
@@ -446,5 +482,8 @@ EventOK(e) ==
       [] e.op = "prefix8"       -> Prefix8OK(e)
       [] e.op = "count_byte"    -> CountByteOK(e)
       [] e.op = "histogram"     -> HistogramOK(e)
+      [] e.op = "positions"     -> PositionsOK(e)
+      [] e.op = "find_last"     -> FindLastOK(e)
+      [] e.op = "popcount_bytes" -> PopCountBytesOK(e)
       [] OTHER                  -> FALSE
 =============================================================================
